@@ -155,7 +155,7 @@ func (s *Sim) mutateConf() *ConfSpec {
 			if c.Find(path+"."+name) != nil {
 				continue
 			}
-			nq := &QSpec{Name: name}
+			nq := &QSpec{Name: name, Upper: r.Bool(0.2)}
 			if q.MaxApps != 0 {
 				nq.MaxApps = uint64(r.Range(1, int(q.MaxApps)))
 			}
